@@ -3,6 +3,7 @@
 package main
 
 import (
+	"fmt"
 	"encoding/base64"
 	"strings"
 	"sync"
@@ -21,6 +22,7 @@ type vpLiveB struct {
 	jar   *vpJar
 	steps []map[string]interface{}
 	byTick map[int]*vpStep
+	user   string
 	key   string
 	dead  bool
 }
@@ -126,7 +128,10 @@ func init() {
 							}
 							switch st.A {
 							case "login":
-								cb, err := w.login(b.jar, "alice", "")
+								// every behaviour signs in as a user of its own, so that the provider's refresh grants can be attributed
+								b.user = fmt.Sprintf("lt-%d", b.c.ID)
+								w.idp.addUser(b.user, vpUser{Sub: "sub-" + b.user, Email: b.user + "@example.com", Groups: []string{"g1"}, Username: b.user})
+								cb, err := w.login(b.jar, b.user, "")
 								if err != nil || w.sessionCookieEffect(cb) != "set" {
 									b.dead = true
 									ev["dead"] = true
@@ -143,12 +148,14 @@ func init() {
 									}
 								}
 							case "request":
-								n0 := w.idp.countCallsOutcome("token_refresh", "ok", b.jar)
+								n0 := w.idp.refreshGrants(b.user)
 								r := w.get(b.jar, "/private")
 								ev["served"] = r.UpHits > 0
-								refreshed := w.sessionCookieEffect(r) == "set"
-								_ = n0
+								// "last refreshed" is what the PROVIDER did: a refresh grant answered with new tokens for this session - not whatever
+								// makes the proxy hand out a cookie with a newer stamp
+								refreshed := w.idp.refreshGrants(b.user) > n0
 								ev["refreshed"] = refreshed
+								ev["reissued"] = w.sessionCookieEffect(r) == "set"
 								sessMaxAge(r)
 								if refreshed && w.mr != nil {
 									if tk := b.jar.get(w.name); tk != nil {
